@@ -142,62 +142,51 @@ func accessibleRule(p *Prog, r *Report, id string) {
 	if fi == nil {
 		return
 	}
+	// condition inventory: every comparison in the function is `<pkg> == nil` or `<pkg>.Path() == outputPackagePath`,
+	// every call used as a condition is obj.Exported(), and there is at least one of each kind
 	bad := ""
-	n := 0
-	for _, b := range sf.Blocks {
-		for _, in := range b.Instrs {
-			ret, ok := in.(*ssa.Return)
-			if !ok {
-				continue
+	nNil, nPath, nExp := 0, 0, 0
+	allInstrs(sf, false, func(in ssa.Instruction) {
+		switch x := in.(type) {
+		case *ssa.BinOp:
+			if x.Op != token.EQL && x.Op != token.NEQ {
+				return
 			}
-			facts, may := trueFactsOfReturn(ret)
-			if !may {
-				continue
+			isPath := func(v ssa.Value) bool {
+				c, ok := v.(*ssa.Call)
+				return ok && ssaCalleeObj(c) != nil && isFunc(ssaCalleeObj(c), "go/types", "Package", "Path")
 			}
-			n++
-			okRet := false
-			for _, f := range facts {
-				if nf, isNeg := f.(negFact); isNeg {
-					_ = nf
-					continue
+			isParam := func(v ssa.Value) bool { return v == ssa.Value(sf.Params[1]) }
+			switch {
+			case isNilConst(x.X) || isNilConst(x.Y):
+				nNil++
+			case (isPath(x.X) && isParam(x.Y)) || (isPath(x.Y) && isParam(x.X)):
+				nPath++
+			default:
+				bad = p.PosStr(x.Pos()) + ": accessibility is decided by the comparison " + x.String() + ", which is not `Pkg() == nil` or `Pkg().Path() == outputPackagePath`"
+			}
+		case *ssa.If:
+			if c, ok := x.Cond.(*ssa.Call); ok {
+				name := ""
+				if c.Call.Method != nil {
+					name = c.Call.Method.Name()
+				} else if o := ssaCalleeObj(c); o != nil {
+					name = o.Name()
 				}
-				switch x := f.(type) {
-				case *ssa.Call:
-					if cm := x.Call.Method; cm != nil && cm.Name() == "Exported" {
-						okRet = true
-					}
-					if o := ssaCalleeObj(x); o != nil && o.Name() == "Exported" {
-						okRet = true
-					}
-				case *ssa.BinOp:
-					if x.Op == token.EQL {
-						// pkg == nil  |  pkg.Path() == outputPackagePath
-						if isNilConst(x.X) || isNilConst(x.Y) {
-							okRet = true
-						}
-						isPath := func(v ssa.Value) bool {
-							c, ok := v.(*ssa.Call)
-							return ok && ssaCalleeObj(c) != nil && isFunc(ssaCalleeObj(c), "go/types", "Package", "Path")
-						}
-						isParam := func(v ssa.Value) bool { return v == ssa.Value(sf.Params[1]) }
-						if (isPath(x.X) && isParam(x.Y)) || (isPath(x.Y) && isParam(x.X)) {
-							okRet = true
-						}
-					}
-				case *ssa.Phi:
-					// `a || b`: φ[true, b] — accept when every non-constant edge is one of the above (expanded by facts)
+				if name == "Exported" {
+					nExp++
+				} else {
+					bad = p.PosStr(x.Pos()) + ": accessibility depends on " + name + "()"
 				}
-			}
-			if !okRet {
-				bad = p.PosStr(ret.Pos()) + ": can return true without obj.Exported(), Pkg() == nil or Pkg().Path() == outputPackagePath"
 			}
 		}
-	}
-	if bad != "" {
+	})
+	switch {
+	case bad != "":
 		r.Bad("xtype.Accessible", p.PosStr(fi.Decl.Pos()), bad+": members that the output package cannot name would be read or written by generated code")
-	} else if n == 0 {
-		r.Bad("xtype.Accessible", p.PosStr(fi.Decl.Pos()), "never returns true")
-	} else {
+	case nNil < 1 || nPath < 1 || nExp < 1:
+		r.Bad("xtype.Accessible", p.PosStr(fi.Decl.Pos()), fmt.Sprintf("expected the three tests exported / no package / same package path, found %d/%d/%d", nExp, nNil, nPath))
+	default:
 		r.OK("xtype.Accessible", p.PosStr(fi.Decl.Pos()), "exported ∨ universe ∨ same package path")
 	}
 }
@@ -313,6 +302,11 @@ func assignabilityRule(p *Prog, r *Report, id string) {
 			ifs, ok := n.(*ast.IfStmt)
 			if !ok || !endsInExit(ifs.Body) {
 				return true
+			}
+			for _, cj := range conjuncts(ifs.Cond) {
+				if tv, ok := info.Types[cj]; ok && tv.Value != nil && tv.Value.String() == "false" {
+					return true // constant-false conjunct: the guard is dead
+				}
 			}
 			for _, cj := range conjuncts(ifs.Cond) {
 				u, ok := ast.Unparen(cj).(*ast.UnaryExpr)
